@@ -444,6 +444,9 @@ def run_property(prop, module, tier, repo, seed):
     try:
         ctx = Ctx(repo)
         R.census = dict(ctx.m.census())
+        R.census["normalisation"] = {"inlined_or_folded_sites": len(ctx.m.inlined), "helpers_removed": list(ctx.m.dropped_helpers)[:40], "sites": [f"{a} -> {b}:{c}" for a, b, c in ctx.m.inlined[:40]]}
+        if ctx.m.inlined:
+            print(f"NORMALISED property={prop} {len(ctx.m.inlined)} call sites of helpers/constants that are not on the pinned tree were inlined (sa/inline.py); helpers removed from the model: {len(ctx.m.dropped_helpers)}")
         module.run(ctx, R)
         if tier == "thorough" and hasattr(module, "thorough"):
             module.thorough(ctx, R)
